@@ -3,10 +3,14 @@ use std::{iter::Peekable, str::Chars};
 use super::superscript_digit_to_digit;
 
 pub fn deserialize_superscript_number(current_char: &char, expr: &mut Peekable<Chars>) -> String {
+    #[cfg(feature = "verif_hooks")]
+    crate::verif_hooks::tick();
     let mut number = superscript_digit_to_digit(current_char)
         .map(|c| c.to_string())
         .unwrap_or_default();
     while let Some(next_char) = expr.peek() {
+        #[cfg(feature = "verif_hooks")]
+        crate::verif_hooks::tick();
         if let Some(next_char) = superscript_digit_to_digit(next_char) {
             expr.next();
             number.push(next_char);
